@@ -13,9 +13,10 @@ package simrt
 
 import (
 	"fmt"
-	"strings"
+	"os"
 	"runtime"
 	"sort"
+	"strings"
 	"sync"
 	"time"
 )
@@ -34,24 +35,24 @@ type Event struct {
 
 // Task is one schedulable goroutine.
 type Task struct {
-	ID      int
-	Name    string
-	Parent  int
-	rng     uint64
-	log     []Event
-	seq     int
-	Waiting string // what the task is blocked/spinning on (for wedge reports)
-	Started bool
-	Exited  bool
-	Wedged  bool
-	Killed  bool
-	Origin  string // creation site
-	Label   string // free label inherited by child tasks (the harness stores the node URL)
-	goid    uint64
-	sim     *Sim
+	ID             int
+	Name           string
+	Parent         int
+	rng            uint64
+	log            []Event
+	seq            int
+	Waiting        string // what the task is blocked/spinning on (for wedge reports)
+	Started        bool
+	Exited         bool
+	Wedged         bool
+	Killed         bool
+	Origin         string // creation site
+	Label          string // free label inherited by child tasks (the harness stores the node URL)
+	goid           uint64
+	sim            *Sim
 	parks, awParks int64
-	Panic   string // set when the task's function panicked (a real process would have died)
-	PanicAt string // innermost function of the code under test on the panicking stack
+	Panic          string // set when the task's function panicked (a real process would have died)
+	PanicAt        string // innermost function of the code under test on the panicking stack
 }
 
 // Sim is the state of one simulated run.
@@ -68,7 +69,7 @@ type Sim struct {
 	// FailAt decides injected storage errors: site -> remaining successful calls before one failure (-1 never).
 	Fail map[string]*FailSpec
 	// Hook called (by the running task) at every Yield; used for cancel-after-k style faults.
-	OnYield func(t *Task, site string)
+	OnYield   func(t *Task, site string)
 	LogYields bool
 	// Sites counts calls per storage call site (when non-nil).
 	Sites map[string]int
@@ -247,11 +248,28 @@ func park(t *Task, skip int) {
 	}
 	d += int64(skip) * Slot
 	t.parks++
+	if traceParks {
+		var pcs [6]uintptr
+		n := runtime.Callers(2, pcs[:])
+		fr := runtime.CallersFrames(pcs[:n])
+		var where []string
+		for {
+			f, more := fr.Next()
+			where = append(where, fmt.Sprintf("%s:%d", f.Function, f.Line))
+			if !more {
+				break
+			}
+		}
+		t.Log("park", fmt.Sprintf("d=%d %v", d, where))
+	}
 	if d > 0 {
 		time.Sleep(time.Duration(d))
 	}
 	current = t
 }
+
+// traceParks (environment SIMRT_TRACE_PARKS=1, development only) logs every park with its call stack.
+var traceParks = os.Getenv("SIMRT_TRACE_PARKS") != ""
 
 // SleepUntil parks the running task until the first instant of its class >= at (fake ns since start).
 //
